@@ -1,3 +1,4 @@
+import json
 """C09 — names resolve lexically; consistent renaming changes nothing (DESIGN §4 C09)."""
 import re
 
@@ -46,6 +47,7 @@ def run(F, rep, tier):
     rep.undecided = UNDECIDED
     scope_rules(F, rep, "SCOPE")
     lookup_order(F, rep)
+    shadowing_is_never_an_error(F, rep)
     qualified_lookup(F, rep)
     decl_order(F, rep)
     visit_resolver(F, rep)
@@ -517,3 +519,37 @@ def duplicates(F, rep):
     rets = [n for n in nodes(body, "If") if "is_empty" in pp(n["c"])]
     rep.ob("DUP", "insert_namespace_and_add_definitions|errs=>Err", bool(rets),
            "collected collisions turn into Err", fn["sp"])
+
+
+def shadowing_is_never_an_error(F, rep, rule="LOOKUP"):
+    """A name that is already on the scope stack is *shadowed* by a new declaration of it, never refused: the only function of the
+    resolver that reads the entries of the stack and can fail is lookup(), and it fails when the name is absent.  (Pushing, measuring
+    and truncating the stack read no entry.)"""
+    readers = {}
+    for fn in F.fns_in(R[:-len("Resolver::")] if R.endswith("Resolver::") else R):
+        for c in nodes(fn_body(fn)):
+            if c.get("k") not in ("MethodCall", "Index", "ForLoop"):
+                continue
+            base = peel(c.get("recv") or c.get("e") or c.get("iter") or {})
+            while isinstance(base, dict) and base.get("k") == "MethodCall" and base["m"] in ("iter", "rev", "as_slice", "clone", "iter_mut", "as_ref"):
+                base = peel(base["recv"])
+            if not (isinstance(base, dict) and base.get("k") == "Field" and base.get("name") == "stack"):
+                continue
+            if c.get("k") == "MethodCall" and c["m"] in ("len", "truncate", "push", "clear", "is_empty", "pop", "iter", "rev", "reserve"):
+                continue
+            if c.get("k") == "Index" and "Range" in json.dumps(c.get("i"))[:400]:
+                continue  # the part of the stack a construct has pushed itself (`self.stack[ss..]`): its own declarations, not outer ones
+            readers.setdefault(fn["_path"], []).append(c)
+    n = 0
+    for p, cs in sorted(readers.items()):
+        n += 1
+        fn = F.fn(p)
+        fails = [x for x in nodes(fn_body(fn)) if x.get("k") == "Call" and (callee(x) or "").endswith("Result::Err")] + \
+                [x for x in nodes(fn_body(fn)) if x.get("k") == "Try"]
+        ok = not fails or p == R + "lookup"
+        rep.ob(rule, "%s|reads-the-stack-entries" % last(p, 2), ok,
+               "%s reads the entries of the scope stack %s" % (last(p, 2), "- it is the lookup" if p == R + "lookup" else "and cannot fail (no error is built in it)") if ok else
+               "%s reads which names are on the scope stack and can fail (`%s`): a declaration whose name is taken by an enclosing scope "
+               "is refused where it should shadow - the same program with fresh names compiles" % (last(p, 2), pp(fails[0])[:50]),
+               line_of(cs[0]))
+    rep.floor(rule, "resolver functions that read the entries of the scope stack", n, 2)
